@@ -533,9 +533,9 @@ def parse_4050(o):
     return res
 
 
-def zoo_cases(rng, tier, ids=None):
+def zoo_cases(rng, tier, ids=None, quick_n=110):
     """-> list of (tid, value) with coverage of boundaries, defaults, optionals, alternatives"""
-    n_rand = 110 if tier == "quick" else 2500
+    n_rand = quick_n if tier == "quick" else 2500
     cases = []
     for tid, t in ZOO.items():
         if ids is not None and tid not in ids:
